@@ -16,8 +16,10 @@ type V = absint.Value
 
 // G wraps one machine with lookups into the generator's packages.
 type G struct {
-	M *absint.Machine
-	P *core.Program
+	M      *absint.Machine
+	P      *core.Program
+	Loader V        // optional schemas.Loader stub (see StubLoader)
+	Loads  []string // loader calls made: "parent -> uri"
 }
 
 func New(m *absint.Machine) *G { return &G{M: m, P: m.P} }
